@@ -946,10 +946,14 @@ def _rebuild_child(case):
             former[nuc.label] = nuc
             nb.changeLabel(nuc, "q0u" if nuc.label != "q0u" else "q1u")
         elif op in ("rebuild", "rebuild-all"):
-            if op == "rebuild-all":
-                elements.factory()
-            nb.destroyGlobalNuclides()
-            nb.factory()
+            try:
+                if op == "rebuild-all":
+                    elements.factory()
+                nb.destroyGlobalNuclides()
+                nb.factory()
+            except Exception as e:  # noqa: BLE001 - a rebuild that raises is an outcome of the implementation
+                _v(vs, "c19/rebuild-raises/%s" % type(e).__name__, "after %s: rebuilding the directory raises %r" % (hist, e), cc)
+                return vs, {"lookups": 0, "state": ["rebuild raised", type(e).__name__], "materials": 0}
             former = {}
         else:
             raise RuntimeError("unknown op %r" % (op,))
